@@ -18,7 +18,10 @@ const (
 	defaultDataTimeout = 5 * time.Second
 )
 
-var errNoInfo = errors.New("elastic info is not a JSON object")
+var (
+	errNoInfo   = errors.New("elastic info is not a JSON object")
+	errRedirect = errors.New("redirect to another location is not followed")
+)
 
 type ScanResult struct {
 	ScanType string                 `json:"scan"`
@@ -70,6 +73,11 @@ func NewScanner(proto string, opts ...ScannerOption) *Scanner {
 	ec := &elasticClient{
 		client: &http.Client{
 			Transport: tr,
+			// never follow redirects: the scanned host must not be able
+			// to send the scanner to an address outside of the target set
+			CheckRedirect: func(*http.Request, []*http.Request) error {
+				return errRedirect
+			},
 		},
 		proto:       proto,
 		dataTimeout: defaultDataTimeout,
